@@ -59,6 +59,8 @@ func runCase(req caseReq, seed uint64, tier string, progress func(int, string)) 
 		err = checkGB(genGBCase(seed, req.Idx, tier), seed, tier, skip, progress, resp)
 	case "join":
 		err = checkJoin(genJoinCase(seed, req.Idx, tier), seed, tier, skip, progress, resp)
+	case "scale":
+		err = checkScale(seed, req.Idx, tier, skip, progress, resp)
 	case "model":
 		err = checkModel(seed, req.Idx, tier, skip, progress, resp)
 	case "probe":
